@@ -175,6 +175,10 @@ func WideFile() (protoreflect.FileDescriptor, error) {
 	addField(wide, fieldSpec{name: "s_enum", num: 80, typ: tEnum, typeName: q("Mode")})
 	addField(wide, fieldSpec{name: "r_enum", num: 81, typ: tEnum, typeName: q("Mode"), label: rep})
 	addMap(wide, "m_enum", 82, fieldSpec{typ: tEnum, typeName: q("Mode")})
+	// an enum whose zero option is dropped from the schema (no_default): its name must be rejected like any unknown name
+	addField(wide, fieldSpec{name: "s_tone", num: 83, typ: tEnum, typeName: q("Tone")})
+	addField(wide, fieldSpec{name: "r_tone", num: 84, typ: tEnum, typeName: q("Tone"), label: rep})
+	addMap(wide, "m_tone", 85, fieldSpec{typ: tEnum, typeName: q("Tone")})
 	addField(wide, fieldSpec{name: "s_leaf", num: 90, typ: tMsg, typeName: q("Leaf")})
 	addField(wide, fieldSpec{name: "r_leaf", num: 91, typ: tMsg, typeName: q("Leaf"), label: rep})
 	addMap(wide, "m_leaf", 92, fieldSpec{typ: tMsg, typeName: q("Leaf")})
@@ -224,6 +228,15 @@ func WideFile() (protoreflect.FileDescriptor, error) {
 	deep := &descriptorpb.DescriptorProto{Name: proto.String("DeepFlat")}
 	addField(deep, fieldSpec{name: "d_a", num: 1, typ: tString})
 	addOptional(deep, fieldSpec{name: "d_b", num: 2, typ: tInt64})
+	// a third level of flattening with several properties innermost: proto paths of length four from Wide
+	addField(deep, fieldSpec{name: "deepest", num: 3, typ: tMsg, typeName: q("Deepest"),
+		opts: &ext_j5pb.FieldOptions{Type: &ext_j5pb.FieldOptions_Message{Message: &ext_j5pb.MessageFieldOptions{Flatten: true}}}})
+
+	deepest := &descriptorpb.DescriptorProto{Name: proto.String("Deepest")}
+	addField(deepest, fieldSpec{name: "z_a", num: 1, typ: tString})
+	addField(deepest, fieldSpec{name: "z_b", num: 2, typ: tInt64})
+	addField(deepest, fieldSpec{name: "z_list", num: 3, typ: tString, label: rep})
+	addField(deepest, fieldSpec{name: "z_leaf", num: 4, typ: tMsg, typeName: q("Leaf")})
 
 	mode := &descriptorpb.EnumDescriptorProto{
 		Name: proto.String("Mode"),
@@ -235,6 +248,17 @@ func WideFile() (protoreflect.FileDescriptor, error) {
 		},
 	}
 
+	tone := &descriptorpb.EnumDescriptorProto{
+		Name: proto.String("Tone"),
+		Value: []*descriptorpb.EnumValueDescriptorProto{
+			{Name: proto.String("TONE_UNSPECIFIED"), Number: proto.Int32(0)},
+			{Name: proto.String("TONE_LOW"), Number: proto.Int32(1)},
+			{Name: proto.String("TONE_HIGH"), Number: proto.Int32(2)},
+		},
+		Options: &descriptorpb.EnumOptions{},
+	}
+	proto.SetExtension(tone.Options, ext_j5pb.E_Enum, &ext_j5pb.EnumOptions{NoDefault: true})
+
 	fdp := &descriptorpb.FileDescriptorProto{
 		Name:    proto.String("verif/wide/v1/wide.proto"),
 		Package: proto.String(pkg),
@@ -243,8 +267,8 @@ func WideFile() (protoreflect.FileDescriptor, error) {
 			"google/protobuf/any.proto", "google/protobuf/duration.proto", "google/protobuf/timestamp.proto", "j5/ext/v1/annotations.proto",
 			"j5/types/any/v1/any.proto", "j5/types/date/v1/date.proto", "j5/types/decimal/v1/decimal.proto",
 		},
-		MessageType: []*descriptorpb.DescriptorProto{wide, leaf, choice, flat, deep},
-		EnumType:    []*descriptorpb.EnumDescriptorProto{mode},
+		MessageType: []*descriptorpb.DescriptorProto{wide, leaf, choice, flat, deep, deepest},
+		EnumType:    []*descriptorpb.EnumDescriptorProto{mode, tone},
 	}
 	fd, err := protodesc.NewFile(fdp, protoregistry.GlobalFiles)
 	if err != nil {
